@@ -181,6 +181,28 @@ def worker(case):
                 probs.append(("equal-netlists-rejected:write-then-read:%s:%s" % (tag, r), "netlist vs its own round trip"))
         except Exception as ex:
             probs.append(("round-trip-raised:%s:%s" % (tag, type(ex).__name__), repr(ex)[:200]))
+        # compare -> edit -> compare in one process: the pins of a port of the copy are reversed (must be rejected);
+        # then the lowest pin of a port of the original is removed and a fresh clone is compared (must be accepted)
+        e1 = a.clone()
+        if compare(a, e1) is None:
+            nq += 1
+            port = next((p for l in e1.libraries for d_ in l.definitions for p in d_.ports
+                         if len(p.pins) > 1 and len(set(id(ip.wire) for ip in p.pins)) > 1), None)
+            if port is not None:
+                port.pins = list(reversed(list(port.pins)))
+                nq += 1
+                if compare(a, e1) is None:
+                    probs.append(("difference-accepted:port-pins-reversed-after-a-comparison:%s" % tag, "%s.%s" % (port.definition.name, port.name)))
+        port = next((p for l in a.libraries for d_ in l.definitions for p in d_.ports if len(p.pins) > 1), None)
+        if port is not None:
+            low = port.pins[0]
+            if low.wire is not None:
+                low.wire.disconnect_pin(low)
+            port.remove_pin(low)
+            r = compare(a, a.clone())
+            nq += 1
+            if r:
+                probs.append(("equal-netlists-rejected:clone-after-pin-removed:%s:%s" % (tag, r), "after earlier comparisons the lowest pin of %s.%s was removed" % (port.definition.name, port.name)))
         # a faithful copy whose wires list their pins in another order (pins detached and attached again)
         d = a.clone()
         for l in d.libraries:
